@@ -125,6 +125,7 @@ func ssoAdversarial(r *core.Run, prop string) {
 		q = append(q, t.Draw(1<<16, "adv.param"))
 	}
 	s := NewStd(r)
+	s.DrawLive()
 	untrusted := &world.IdP{Name: "u"}
 	untrustedKey := 5
 	untrustedCert := world.MintCert(untrustedKey, s.Epoch.Add(-24*time.Hour), s.Epoch.Add(10*365*24*time.Hour), 0)
